@@ -227,3 +227,18 @@ package op
 //@   loop 0 invariant 0 <= i && i <= len(cc) && supported(cur)
 //@   loop 0 decreases len(cc) - i
 //@   loop 0 modifies CircleMember
+
+// ---- printed forms read back (C10) ----
+
+//@ func lemmaC10Key returns (x, err)
+//@   requires validKey(k)
+//@   ensures err == nil && x == k
+
+//@ func lemmaC10Dynamic returns (x, err)
+//@   requires validDyn(d)
+//@   ensures err == nil && x == d
+
+//@ func lemmaC10BPM returns (x, err)
+//@   requires 0 <= b && b < 18446744073709551616
+//@   ensures (err == nil) == (b != 0)
+//@   ensures err == nil ==> x == b
